@@ -79,20 +79,41 @@ type labelSpec struct {
 // cont is what every line after a line ending starts with (container prefix).
 func drawLabel(t *rapid.T, base []int, respell bool, tag string) string {
 	var sb strings.Builder
-	lead := []string{"", "", "", " ", "  ", "\t"}[rapid.IntRange(0, 5).Draw(t, tag+"lead")]
-	sb.WriteString(lead)
-	for i, u := range base {
-		if i > 0 && rapid.IntRange(0, 2).Draw(t, tag+"sepq") == 0 {
-			sb.WriteString(wsRuns[rapid.IntRange(0, len(wsRuns)-1).Draw(t, tag+"sep")])
-		}
-		sp := units[u]
+	// spellings first, so that a line ending is only placed before a spelling
+	// that starts with a letter (a continuation line must not start a block)
+	var sp []string
+	for _, u := range base {
 		k := 0
 		if respell {
-			k = rapid.IntRange(0, len(sp)-1).Draw(t, tag+"sp")
+			k = rapid.IntRange(0, len(units[u])-1).Draw(t, tag+"sp")
 		}
-		sb.WriteString(sp[k])
+		sp = append(sp, units[u][k])
 	}
-	sb.WriteString([]string{"", "", "", " ", "\t", "  "}[rapid.IntRange(0, 5).Draw(t, tag+"trail")])
+	letterFirst := func(x string) bool {
+		for _, r := range x {
+			return unicode.IsLetter(r)
+		}
+		return false
+	}
+	lead := []string{"", "", "", " ", "  ", "\t", "\n", " \n"}[rapid.IntRange(0, 7).Draw(t, tag+"lead")]
+	if strings.Contains(lead, "\n") && !(len(sp) > 0 && letterFirst(sp[0])) {
+		lead = " "
+	}
+	sb.WriteString(lead)
+	for i, x := range sp {
+		if i > 0 && rapid.IntRange(0, 2).Draw(t, tag+"sepq") == 0 {
+			sep := wsRuns[rapid.IntRange(0, len(wsRuns)-1).Draw(t, tag+"sep")]
+			if strings.ContainsAny(sep, "\r\n") && !letterFirst(x) {
+				sep = " "
+			}
+			if strings.HasSuffix(sep, " ") && strings.ContainsAny(sep, "\r\n") {
+				sep = strings.TrimRight(sep, " ") // no indentation on continuation lines inside labels
+			}
+			sb.WriteString(sep)
+		}
+		sb.WriteString(x)
+	}
+	sb.WriteString([]string{"", "", "", " ", "\t", "  ", "\n"}[rapid.IntRange(0, 6).Draw(t, tag+"trail")])
 	return sb.String()
 }
 
@@ -130,12 +151,18 @@ func labelOK(l string) bool {
 	if len(l) > 300 {
 		return false
 	}
-	for i, ln := range strings.FieldsFunc(l, func(r rune) bool { return r == '\n' || r == '\r' }) {
+	lf := strings.ReplaceAll(strings.ReplaceAll(l, "\r\n", "\n"), "\r", "\n")
+	lines := strings.Split(lf, "\n")
+	for i, ln := range lines {
 		t := strings.TrimLeft(ln, " \t")
 		if i == 0 {
 			continue
 		}
 		if t == "" {
+			// only the last line may be empty: the closing bracket follows
+			if i == len(lines)-1 && ln == "" {
+				continue
+			}
 			return false
 		}
 		r := []rune(t)[0]
@@ -161,7 +188,7 @@ type def struct {
 	join  bool // share the root block with the next definition when both are in a quote
 }
 
-func buildDoc(defs []def, use string, useForm, useKind int, usePos int) string {
+func buildDoc(defs []def, use string, useForm, useKind int, usePos int, useCont int) string {
 	var parts []string
 	renderDef := func(d def) string {
 		s := "[" + d.label + "]: " + d.dest
@@ -194,6 +221,17 @@ func buildDoc(defs []def, use string, useForm, useKind int, usePos int) string {
 		u = "!" + u
 	}
 	u = "q " + u + " q"
+	// the use may sit in a container too (its label may span lines there)
+	switch useCont {
+	case 1:
+		u = inContainer(u, "> ", "> ")
+	case 2:
+		u = inContainer(u, "- ", "  ")
+	case 3:
+		u = inContainer(u, "> - ", ">   ")
+	case 4:
+		u = inContainer(u, ">", ">")
+	}
 	// consecutive definitions that both sit in a quote may share one root block
 	// (joined by an empty quote line), so that definitions at different depths
 	// of the same root block compete
@@ -250,7 +288,7 @@ func propResolve(c harness.Case) harness.Result {
 			return res
 		}
 	}
-	doc := buildDoc(defs, use, c.I["form"], c.I["kind"], c.I["pos"])
+	doc := buildDoc(defs, use, c.I["form"], c.I["kind"], c.I["pos"], c.I["usecont"])
 	want := -1
 	un := refNorm(use)
 	competing := 0
@@ -342,6 +380,7 @@ func genResolve(t *rapid.T) harness.Case {
 	c.SetI("form", rapid.IntRange(0, 2).Draw(t, "form"))
 	c.SetI("kind", rapid.IntRange(0, 1).Draw(t, "kind"))
 	c.SetI("pos", rapid.IntRange(0, n).Draw(t, "pos"))
+	c.SetI("usecont", rapid.IntRange(0, 6).Draw(t, "usecont")) // 5, 6: top level
 	return c
 }
 
